@@ -97,3 +97,43 @@ Proof.
   split; [split; [right; left; vm_compute; reflexivity|apply bounded_of_forallb; vm_compute; reflexivity]|].
   split; vm_compute; reflexivity.
 Qed.
+
+(** the close side of the bracket, and the whole bracket after the mount's marking: at EVERY point between two device writes of any
+    history of interface calls followed by close, the dirty flag is in the boot sector, or the device already holds the closed image
+    everywhere outside the boot-sector copies — "a device state that carries no mark is always complete".  Not proved: the points INSIDE the
+    mount's own marking (FAT16/32: the cleared FAT[1] bit is the only mark until the boot sector is written), torn single writes of close. *)
+From PyFatV Require Import Proofs.Bracket.
+Theorem C11_close_bracket : forall s s',
+  dev_ok (s_dev s) -> hdr_wf (s_h s) -> flagged (s_dev s) (s_dsize s) ->
+  512 <= fat_start s -> 0 <= fat_bytes s -> (ft s = Gen.FAT_TYPE_FAT32 -> 0 <= BPB_BkBootSec (s_h s) * bps s) ->
+  mark_clean s = Ok s' ->
+  exists l, s_log s' = l ++ s_log s /\ s_dev s' = apply_log l (s_dev s) /\
+    forall later earlier, l = later ++ earlier ->
+      flagged (apply_log earlier (s_dev s)) (s_dsize s) \/
+      forall a, 0 <= a -> ~ in_boot_copies s a -> dbyte (apply_log earlier (s_dev s)) a = dbyte (s_dev s') a.
+Proof. exact close_bracket. Qed.
+Print Assumptions C11_close_bracket.
+Theorem C11_session_bracket : forall s1 s2 s3,
+  safe s1 -> dev_ok (s_dev s1) -> hdr_wf (s_h s1) -> 512 <= s_dsize s1 -> flagged (s_dev s1) (s_dsize s1) ->
+  (ft s1 = Gen.FAT_TYPE_FAT32 -> 0 <= BPB_BkBootSec (s_h s1) * bps s1) ->
+  clos_refl_trans st wstep s1 s2 -> mark_clean s2 = Ok s3 ->
+  exists l, s_log s3 = l ++ s_log s1 /\ s_dev s3 = apply_log l (s_dev s1) /\
+    forall later earlier, l = later ++ earlier ->
+      flagged (apply_log earlier (s_dev s1)) (s_dsize s1) \/
+      forall a, 0 <= a -> ~ in_boot_copies s1 a -> dbyte (apply_log earlier (s_dev s1)) a = dbyte (s_dev s3) a.
+Proof. exact session_bracket. Qed.
+Print Assumptions C11_session_bracket.
+(** non-vacuity: the premises hold for the history of C11_history_example (a makedir and a file creation on the FAT16 volume after its
+    dirty marking), and closing it succeeds with 5 further writes (two FAT copies, boot sector, signature ... ) *)
+Definition ex11_c : st := match mark_clean ex11_b with Ok s => s | Err _ => ex11_b end.
+Example C11_bracket_example :
+  safe ex16_s1 /\ dev_ok (s_dev ex16_s1) /\ hdr_wf (s_h ex16_s1) /\ 512 <= s_dsize ex16_s1 /\ flagged (s_dev ex16_s1) (s_dsize ex16_s1) /\
+  clos_refl_trans st wstep ex16_s1 ex11_b /\ mark_clean ex11_b = Ok ex11_c /\ (length (s_log ex11_c) >= length (s_log ex11_b) + 4)%nat /\
+  ~ flagged (s_dev ex11_c) (s_dsize ex11_c).
+Proof.
+  destruct C11_history_example as (Hs & Hh & _).
+  split; [exact Hs|]. split; [apply dev_ok_of_forallb; vm_compute; reflexivity|].
+  split; [split; [vm_compute; repeat split; try discriminate; reflexivity | vm_compute; repeat split; reflexivity]|].
+  split; [vm_compute; discriminate|]. split; [vm_compute; reflexivity|]. split; [exact Hh|].
+  split; [vm_compute; reflexivity|]. split; [vm_compute; repeat constructor|]. unfold flagged. vm_compute. discriminate.
+Qed.
